@@ -40,6 +40,8 @@ pub enum Step {
     StopAgent,
     /// Nothing happens for this long (every reader draining): the agent must stop by itself.
     FinalIdle(u64),
+    /// An HTTP request for a lane the agent does not have (work for the runtime's HTTP task only).
+    Http,
 }
 
 #[derive(Clone, Debug)]
@@ -514,6 +516,9 @@ impl<'a> Gen<'a> {
                     // gaps just below, at and above the timeout (and sums of short gaps that cross it)
                     let t = cfg.inactive_ms.unwrap_or(10);
                     steps.push(Step::Advance(*self.rng.pick(&[1, 1, 2, t / 3, t / 3, t / 2, t / 2, t - 1, t - 1, t, t + 1, 2 * t])));
+                    if self.rng.chance(1, 3) {
+                        steps.push(Step::Http);
+                    }
                 }
                 10 => {
                     steps.push(Step::Advance(if cfg.inactive_ms.is_some() { *self.rng.pick(&[3u64, 10, 30, 60]) } else { *self.rng.pick(&[1u64, 3, 10, 30]) }));
